@@ -231,7 +231,8 @@ def check(res, tier, replay=None):
             found = True
             res.violation("version:" + l, f"implementation and proved model disagree: impl='{a}' model='{b}'",
                           l + f"\n# impl:  {a}\n# model: {b}\n# replay: checks/check.py C14 --replay <this file>")
-        res.sample({"line": lines[4100], "impl": impl[4100] if len(impl) > 4100 else None})
+        if len(lines) > 4100:
+            res.sample({"line": lines[4100], "impl": impl[4100] if len(impl) > 4100 else None})
         res.sample({"line": lines[-1], "impl": impl[-1] if impl else None})
         # ---------------- e2e gate ----------------
         if not replay:
